@@ -8,6 +8,7 @@ days, offsets with seconds), every instant (negative Unix times included) and
 every schedule.
 -/
 import AGH.Lemmas.Schedule
+import AGH.Lemmas.ScheduleFloat
 namespace AGH.C18
 open AGH
 
@@ -226,6 +227,81 @@ theorem C18_constructors_valid (tzOK : Bytes → Bool) (h : tzOK (localName) = t
 -- non-vacuity: a concrete valid schedule, its JSON and YAML documents byte for byte
 example : Valid (fun _ => true) sundayMorning :=
   ⟨by decide, rfl, (Week.forall_get _ (fun r => validate r = .ok ())).mpr (by decide)⟩
+
+/-! ## Serialised numbers judged by their exact value (float64 modelled exactly)
+
+`JSONDuration.UnmarshalJSON` is `int64(ParseFloat(tok) * 1e6)`; `Model/ScheduleFloat.lean`
+models binary64 rounding exactly.  The full statements "accepted ⇒ decoded = what is
+written" and "not whole minutes ⇒ rejected" are FALSE of the code (finding F24, below);
+they are proved under the hypothesis that the written number is a float64. -/
+
+/-- JSON: accepted ⇒ decoded exactly.  If the number written is itself a float64
+(`n·2^j` units of 2^-1074 with `n < 2^53`: every integer below 2^53 ms, and
+fractions like .5 .25 .125 of them) and denotes `K < 2^53` whole nanoseconds,
+then `JSONDuration.UnmarshalJSON` yields exactly `±K`. -/
+theorem C18_json_decode_exact_partial (tok : Bytes) (x : Dec) (n j K : Nat) (r : Int)
+    (hx : parseJSONNumber tok = some x)
+    (hn : n < 2 ^ 53) (hfloat : x.frac.1 * fUnit = n * 2 ^ j * x.frac.2)
+    (hK : K < 2 ^ 53) (hns : x.frac.1 * 1000000 = K * x.frac.2)
+    (h : jsonDurDecodeF tok = .ok r) : r = if x.neg then -(K : Int) else (K : Int) := by
+  unfold jsonDurDecodeF at h
+  rw [hx] at h
+  dsimp only at h
+  split at h
+  · cases h
+  · cases hf : floatMsToNs x.neg x.frac.1 x.frac.2 with
+    | ok ns =>
+      rw [hf] at h
+      injection h with h
+      subst h
+      exact floatMsToNs_exact x.neg x.frac.1 x.frac.2 n j K ns (Dec.frac_den_pos x) hn hK hfloat hns hf
+    | err => rw [hf] at h; cases h
+    | outOfRange => rw [hf] at h; cases h
+    | giveUp => rw [hf] at h; cases h
+
+/-- JSON: a written value that is not a whole number of minutes is rejected —
+under the same representability hypotheses: whatever the other end of the range
+is, validation fails. -/
+theorem C18_json_fraction_rejected_partial (tok : Bytes) (x : Dec) (n j K : Nat) (r : Int)
+    (hx : parseJSONNumber tok = some x)
+    (hn : n < 2 ^ 53) (hfloat : x.frac.1 * fUnit = n * 2 ^ j * x.frac.2)
+    (hK : K < 2 ^ 53) (hns : x.frac.1 * 1000000 = K * x.frac.2)
+    (hfrac : K % 60000000000 ≠ 0)
+    (h : jsonDurDecodeF tok = .ok r) (other : Int) :
+    validate ⟨r, other⟩ ≠ .ok () ∧ validate ⟨other, r⟩ ≠ .ok () := by
+  have hr := C18_json_decode_exact_partial tok x n j K r hx hn hfloat hK hns h
+  have hr' : r % 60000000000 ≠ 0 := by
+    rw [hr]; split <;> omega
+  constructor
+  · intro hv
+    rw [validate_ok_iff] at hv
+    rcases hv with hv | ⟨_, _, _, h4, _⟩
+    · simp only [DayRange.zero, DayRange.mk.injEq] at hv; omega
+    · exact hr' h4
+  · intro hv
+    rw [validate_ok_iff] at hv
+    rcases hv with hv | ⟨_, _, _, _, h5⟩
+    · simp only [DayRange.zero, DayRange.mk.injEq] at hv; omega
+    · exact hr' h5
+
+/-- The representability hypothesis cannot be dropped (finding F24): 35 min + 1 ns
+written as `2100000.000001` ms decodes to 35 min exactly and passes validation;
+`-1e-7` ms (a negative start) decodes to 0. -/
+theorem C18_counterexample_json_decode_exact :
+    (jsonTokVal (Bytes.ofString "2100000.000001") = .notWhole false 2100000000001000000 1000000 ∧
+     jsonDurDecodeF (Bytes.ofString "2100000.000001") = .ok 2100000000000 ∧
+     validate ⟨0, 2100000000000⟩ = .ok ()) ∧
+    (jsonTokVal (Bytes.ofString "-1e-7") = .notWhole true 1000000 10000000 ∧
+     jsonDurDecodeF (Bytes.ofString "-1e-7") = .ok 0) := by
+  decide +kernel
+
+
+-- non-vacuity: 3600000.25 ms = 14400001 · 2^-2 ms is a float64 and denotes 3600000250000 ns: decoded exactly, hence
+-- rejected whatever the other end is (this is what seed C18-10 broke)
+example (other : Int) : validate ⟨3600000250000, other⟩ ≠ .ok () :=
+  (C18_json_fraction_rejected_partial (Bytes.ofString "3600000.25") ⟨false, 360000025, -2⟩ 14400001 1072 3600000250000
+    3600000250000 (by decide +kernel) (by decide) (by decide +kernel) (by decide) (by decide +kernel) (by decide)
+    (by decide +kernel) other).1
 
 /-! ## Requests on a long-lived filter: no memory across instants or updates -/
 
